@@ -253,6 +253,46 @@ func (m *VMMonitor) step(ex *Exec, fr *frame) {
 		act.key = fmt.Sprintf("%v/%x/%d", ex.User["monitor_prog"], p0, ncodes)
 		act.isFunc = fr.caller != nil && containsStr(fr.caller.fn.String(), "mkFunc")
 		acts[fr] = act
+		// m8: a script function starts with its non-parameter slots empty (nothing left behind by earlier calls or by
+		// the caller's dead operands may show through as the initial value of a local)
+		if act.isFunc && n == 0 {
+			for _, fv := range fr.caller.fn.FreeVars {
+				if fv.Name() != "args" {
+					continue
+				}
+				cell, _ := fr.caller.env[fv].(*value)
+				if cell == nil {
+					break
+				}
+				nargs, ok := (*cell).(uint64)
+				if !ok {
+					break
+				}
+				for i := int(int64(nargs)); i < depth && baseN+i < stackLen; i++ {
+					sv, _ := (*stack.at(baseN + i)).(structure)
+					if sv == nil {
+						continue
+					}
+					for _, f := range sv {
+						zero := false
+						switch x := f.(type) {
+						case uint64:
+							zero = x == 0
+						case float64:
+							zero = x == 0
+						case iface:
+							zero = x.t == nil
+						case nil:
+							zero = true
+						}
+						if !zero {
+							m.fail(ex, "C07/M/m8-fresh-locals", fmt.Sprintf("local slot $%d of a called function is not empty at entry (%s)", i, ShowValue(*stack.at(baseN + i))))
+							break
+						}
+					}
+				}
+			}
+		}
 	}
 	m.mu.Lock()
 	m.Steps++
